@@ -6,9 +6,10 @@ cd $wt && git checkout -q -- . && make -j8 >/dev/null 2>&1
 for m in $out/C??-m?; do
   [ -d $m ] || continue
   n=$(basename $m); d=/verif/seeded/$n; mkdir -p $d
-  cp $m/patch.diff $m/demo.cpp $m/notes.txt $d/
-  cmd=$(head -1 $d/demo.cpp | sed 's#^// *##; s#^/\* *##; s# *\*/$##')
-  w=/var/tmp/confirm.$n; rm -rf $w; mkdir -p $w; cp $d/demo.cpp $w/
+  demo=demo.cpp; [ -f $m/demo.cpp ] || demo=demo.sh
+  cp $m/patch.diff $m/$demo $m/notes.txt $d/
+  cmd=$(head -1 $d/$demo | sed 's#^// *##; s#^\# *##; s#^/\* *##; s# *\*/$##')
+  w=/var/tmp/confirm.$n; rm -rf $w; mkdir -p $w; cp $d/$demo $w/
   (cd $w && REPO=$wt bash -c "$cmd") > $w/clean.log 2>&1; crc=$?
   (cd $wt && patch -s -p1 < $d/patch.diff) || { echo "$n apply-failed"; continue; }
   (cd $wt && touch utests/*.cpp && make -j8 > $w/build.log 2>&1); brc=$?
@@ -18,7 +19,7 @@ for m in $out/C??-m?; do
   tp=$(grep -h "PASSED" $wt/utests/*.log 2>/dev/null | grep -o "[0-9]* test" | awk '{s+=$1} END{print s+0}')
   echo "$n clean_demo_rc=$crc build_rc=$brc patched_demo_rc=$prc programs_pass=$pass programs_fail=$fail gtest_passed=$tp" | tee $d/confirm.txt
   tail -3 $w/patched.log | cut -c1-300 > $d/demo_patched_tail.txt
-  (cd $wt && git checkout -q -- .)
+  (cd $wt && git checkout -q -- . && make -j8 >/dev/null 2>&1)     # back to the clean tree AND the clean library before the next seed's clean run
   rm -rf $w
 done
 cd $wt && make -j8 >/dev/null 2>&1
